@@ -195,7 +195,8 @@ def gen_models(rng, n, L, near_one=True):
             band = [F(1) + F(1, 2**20), F(1) - F(1, 2**17)] if near_one else []
             ms.append(("scaling", rng.choice([dy(rng), dy(rng), F(1), F(1) + F(1, 2**16)] + band)))
         elif k == "linear":
-            ms.append(("linear", dy(rng), dy(rng)))
+            # unit slope with a non-zero offset is a forced value (a shortcut for scaling == 1 must still add the offset out of place)
+            ms.append(("linear", Fraction(1) if rng.random() < 0.2 else dy(rng), dy(rng) if rng.random() < 0.8 else Fraction(rng.choice([1, -3, 5]), 4)))
         else:
             ms.append(("het", L, [dy(rng) for _ in range(L)], [dy(rng) for _ in range(L)]))
     return ms
@@ -593,7 +594,7 @@ def oracle_models(ctx, d):
     for dt in ("u8", "u16", "i64", "f32", "f64"):
         for _ in range(ctx.pick(4, 30)):
             L = rng.randint(1, 4)
-            sc, of = [dy(rng) for _ in range(L)], [dy(rng) for _ in range(L)]
+            sc, of = [Fraction(1) if rng.random() < 0.3 else dy(rng) for _ in range(L)], [dy(rng) for _ in range(L)]
             c = mk_case([("het", L, sc, of)], None, L, dt)
             lab, sig = c.arrays()
             ctx.count(("het-vs-hom", dt, tuple(sc), tuple(of)))
@@ -603,7 +604,12 @@ def oracle_models(ctx, d):
                 bad = {"observed": repr(out)}
             else:
                 for li, l in enumerate(np.unique(lab)):
-                    hom = d.LinearModel(scaling=float(sc[li]), offset=float(of[li]))(sig.copy())
+                    hom = call(d.LinearModel(scaling=float(sc[li]), offset=float(of[li])), sig.copy())
+                    if isinstance(hom, Raised):
+                        ctx.fail(f"C14:LinearModel.__call__(dtype={dt}):raises", f"LinearModel(scaling={float(sc[li])}, offset={float(of[li])}) raises {hom!r} on a {dt} signal",
+                                 {"line": Case("single", [("linear", sc[li], of[li])], None, c.pix, c.label_values, c.shape, dt).line(), "observed": repr(hom), "exception": str(hom.exc)[:160]})
+                        bad = None
+                        break
                     reg = lab == l
                     if not np.array_equal(np.asarray(out)[reg], hom[reg]):
                         k = np.argwhere(reg & (np.asarray(out) != hom))[0]
@@ -1242,7 +1248,9 @@ def run_label_sequence(d, lab, shapes, sc, of, sigs=None):
         if tuple(shp) == laba.shape:
             want = np.zeros(shp)
             for li, l in enumerate(uniq):
-                hom = d.LinearModel(scaling=float(sc[li]), offset=float(of[li]))(sig)
+                hom = call(d.LinearModel(scaling=float(sc[li]), offset=float(of[li])), sig.copy())
+                if isinstance(hom, Raised):
+                    return {"step": i, "shape": list(shp), "what": f"the homogeneous LinearModel of label {int(l)} raises {hom!r}"}
                 want[laba == l] = hom[laba == l]
             if not np.array_equal(out, want):
                 bad = np.argwhere(np.asarray(out) != want)[0].tolist()
